@@ -77,6 +77,9 @@ func SigmaFuncFilters() []Step {
 		Filter(Cmp("==", OpP(at(Wild()).F("eg")), LitNum(1))),
 		Filter(Cmp(">", OpP(at(Wild()).F("g", "cnt")), LitNum(1))),
 		Filter(Cmp("==", OpP(at(Union(Idx(0))).F("f", "f")), LitNum(4))),
+		// an aggregate inside an operand whose own path has a nested filter referring to '$'
+		Filter(Cmp("==", OpP(at(Filter(Cmp("==", OpP(at()), OpP(rt(Name("b")))))).F("cnt")), LitNum(1))),
+		Filter(Exists(at(a, Filter(Exists(rt(Name("b"))))).F("g"))),
 	}
 }
 
@@ -108,7 +111,7 @@ func AtomFilters(pairs bool) []Step {
 
 // FuncSuffixes are the single trailing-function suffixes.
 func FuncSuffixes() [][]string {
-	return [][]string{{"f"}, {"id"}, {"g"}, {"cnt"}, {"first"}, {"e"}, {"eg"}, {"gre"}, {"fre"}}
+	return [][]string{{"f"}, {"id"}, {"g"}, {"cnt"}, {"first"}, {"e"}, {"eg"}, {"gre"}, {"fre"}, {"all"}}
 }
 
 // Ladder is a bounded set of paths: all step sequences over Alpha up to Depth, plus every
